@@ -3,6 +3,7 @@ open Atomman Atomman.C16
 
 /-- line protocol of the C16 model driver (numbers are exact rationals / ints on the wire):
     p34 h k l | p43 atol h k i l | v34 u v w | v43 atol u v t w
+    p43arr atol (h k i l)+ | v43arr atol (u v t w)+   -> 3 rationals per row, or err:value for the whole array
     vc2c hex atol V(9) idx(3|4)          -> 3 rationals
     plane hex atol V(9) idx(3|4 ints)    -> s a(3) b(3) | n(3 rationals, unnormalised)
     p2c setting u v w | c2p setting u v w
@@ -14,6 +15,11 @@ def showV4 (v : V4 Rat) : String := showRats [v.a, v.b, v.c, v.d]
 def showE {α : Type} (f : α → String) : Except Err α → String
   | .ok a => f a
   | .error e => e.toString
+
+/-- consecutive groups of four numbers (a trailing incomplete group is dropped; the caller checks the length). -/
+def quads : List Rat → List (V4 Rat)
+  | a :: b :: c :: d :: rest => ⟨a, b, c, d⟩ :: quads rest
+  | _ => []
 
 def handleC16 (toks : List String) : String :=
   match toks with
@@ -33,6 +39,18 @@ def handleC16 (toks : List String) : String :=
     match parseRats? rest with
     | some [atol, u, v, t, w] => showE showV3 (vector4to3 atol ⟨u, v, t, w⟩)
     | _ => err "format"
+  | "p43arr" :: atol :: rest =>
+    match parseRat? atol, parseRats? rest with
+    | some atol, some xs =>
+      if xs.length % 4 != 0 || xs.length == 0 then err "format" else
+      showE (fun l => showRats (l.flatMap V3.toList)) (plane4to3Arr atol (quads xs))
+    | _, _ => err "format"
+  | "v43arr" :: atol :: rest =>
+    match parseRat? atol, parseRats? rest with
+    | some atol, some xs =>
+      if xs.length % 4 != 0 || xs.length == 0 then err "format" else
+      showE (fun l => showRats (l.flatMap V3.toList)) (vector4to3Arr atol (quads xs))
+    | _, _ => err "format"
   | "vc2c" :: hex :: atol :: rest =>
     match parseBool? hex, parseRat? atol, parseRats? rest with
     | some hex, some atol, some xs =>
